@@ -189,9 +189,9 @@ var c08Decls = []declSpec{
 
 var c08Customs = []string{" {a;b} [c] (d)", "", "1", " a  b\tc ", "{ x: y }", " \"s;\" ';' url(;)", "(a;b)"}
 
-var c08Selectors = []string{"li:nth-child(2n +1)", "li:nth-child( 2n + 1 )", ":nth-child(-n +3) b", "a:nth-of-type(+3n -2)", "a:nth-child(2n+1 of .b  .c)", "a", "a b", "a>b", "a > b", "a , b", "a,b", ".c", "a.c #d", "#d:hover", "a :first-child", "a[b=\"c\"]", "a[ b = \"c\" i ]", "a:not(b , .c) d", "a:not([href]) b", "* + *", "a::before", "a~b", "A B", "a\tb\n>\nc", "a /**/ b", ":is( [x] , .y ) z", "h1 , h2:where(.a .b) c", "a [b]", "a:not([b]) [c]"}
+var c08Selectors = []string{".a /*c*/.b", ".a/*c*/ .b", "a /*c*/[b]", "a /*c*//*d*/b:hover", "li:nth-child(2n +1)", "li:nth-child( 2n + 1 )", ":nth-child(-n +3) b", "a:nth-of-type(+3n -2)", "a:nth-child(2n+1 of .b  .c)", "a", "a b", "a>b", "a > b", "a , b", "a,b", ".c", "a.c #d", "#d:hover", "a :first-child", "a[b=\"c\"]", "a[ b = \"c\" i ]", "a:not(b , .c) d", "a:not([href]) b", "* + *", "a::before", "a~b", "A B", "a\tb\n>\nc", "a /**/ b", ":is( [x] , .y ) z", "h1 , h2:where(.a .b) c", "a [b]", "a:not([b]) [c]"}
 
-var c08Preludes = []string{"", "screen", "screen and (min-width:100px)", "screen and ( min-width : 100px )", "a , b", "url(x) print", "(display:grid) and (not (a:b))", "x y"}
+var c08Preludes = []string{"screen /*c*/and (x)", "screen/*c*/ and (x)", "'a.css' /*c*/print", "", "screen", "screen and (min-width:100px)", "screen and ( min-width : 100px )", "a , b", "url(x) print", "(display:grid) and (not (a:b))", "x y"}
 
 func declItem(d declSpec, term string) cItem {
 	return cItem{d.prop + ":" + d.val + term, []gUnit{{css.DeclarationGrammar, strings.ToLower(d.prop), "value", d.val}}}
